@@ -101,7 +101,7 @@ def all_matches(mods, pattern, source):
 def run_subn(mods, pattern, repl, source, count):
     """pattern_matching.subn with every intermediate product recorded."""
     core, processing, pm = mods["core"], mods["processing"], mods["pattern_matching"]
-    rec = {"items": [], "sched": None, "chain": [], "valid": {}, "minws_changed": False, "error": None}
+    rec = {"items": [], "sched": None, "chain": [], "valid": {}, "equiv": {}, "minws_changed": False, "error": None}
 
     def recording(func):
         import functools
@@ -139,6 +139,14 @@ def run_subn(mods, pattern, repl, source, count):
             return r
         return is_valid_python
 
+    def mk_equiv(orig):
+        def _sources_equivalent(a, b):
+            r = orig(a, b)
+            if isinstance(a, str) and isinstance(b, str):
+                rec["equiv"][(a, b)] = bool(r)
+            return r
+        return _sources_equivalent
+
     def mk_minws(orig):
         def minimize_whitespace_line_differences(src, new):
             out = orig(src, new)
@@ -151,6 +159,8 @@ def run_subn(mods, pattern, repl, source, count):
         ins.wrap(processing, "_schedule_rewrites", mk_schedule)
         ins.wrap(processing, "_do_rewrite", mk_do_rewrite)
         ins.wrap(core, "is_valid_python", mk_valid)
+        if hasattr(processing, "_sources_equivalent"):
+            ins.wrap(processing, "_sources_equivalent", mk_equiv)
         ins.wrap(processing, "minimize_whitespace_line_differences", mk_minws)
         try:
             # count == 0 is the documented default: exercised through the default argument
@@ -202,15 +212,27 @@ def ignore_line_ranges(source):
 
 
 def regex_ignore_line_ranges(source):
-    """What core.has_ignore_comment looks at ("\\n"-separated text, regex on the raw line): used for the
-    correspondence with the model, which mirrors the implementation."""
-    res, pos = [], 0
-    for line in source.split("\n"):
-        end = min(len(source), pos + len(line) + 1)
-        if pos < end and IGNORE_RE.search(line):
-            res.append((pos, end))
-        pos = end
-    return res
+    """Physical lines whose raw text matches the ignore regex, comment or not (the pre-776bcb9 reading; used by the
+    signature predicate of the recorded item F14-18 only)."""
+    return [(a, b) for (a, b, t) in physical_lines(source) if IGNORE_RE.search(t)]
+
+
+def tokenizer_verdict(source):
+    """The model's `coms` input: zero-based numbers of the physical lines that carry a COMMENT token matching the
+    ignore regex, by CPython's tokenizer fed with the untranslated lines; None when it raises (the textual test
+    then decides).  Computed here, not taken from pyrefact."""
+    try:
+        return sorted({t.start[0] - 1 for t in tokenize.generate_tokens(io.StringIO(source, newline="").readline)
+                       if t.type == tokenize.COMMENT and IGNORE_RE.search(t.string)})
+    except (tokenize.TokenError, SyntaxError, ValueError):
+        return None
+
+
+def impl_ignore_line_ranges(mods, source):
+    """The physical lines for which the REAL core.has_ignore_comment answers True when asked about exactly that
+    line: what the model's ignore_lines (IgnoreModel.ignore_entries under the tokenizer's verdict) must equal."""
+    core = mods["core"]
+    return [(a, b) for (a, b, _) in physical_lines(source) if core.has_ignore_comment(source, core.Range(a, b))]
 
 
 def overlaps(a, b):
@@ -1063,8 +1085,9 @@ def wrap_ranges(source, rec):
     return out
 
 
-def g_subn_case(case, ms, rec) -> str:
+def g_subn_case(case, ms, rec, mods=None) -> str:
     pat, repl, source, count = case
+    mods = mods or common.import_impl()
     yielded = dict(rec["items"]) if not rec["error"] else {}
     matches = glist([f"({g_range(rng)}, {g_binds(b)}, "
                      f"{glist([f'{i}%nat' for i in string_literal_lines(yielded.get(rng, '')) if i > 0])})"
@@ -1075,12 +1098,15 @@ def g_subn_case(case, ms, rec) -> str:
     else:
         items = "(Some " + glist([f"({g_range(r)}, {gtext(t)})" for (r, t) in rec["items"]]) + ")"
     sched = glist([f"({gz(g)}, {gz(t)}, {gz(s)}, {gz(e)}, {gtext(n)})" for (g, t, s, e, n) in rec["sched"]])
-    il = glist([g_range(r) for r in regex_ignore_line_ranges(source)])
+    il = glist([g_range(r) for r in impl_ignore_line_ranges(mods, source)])
+    coms = gopt(tokenizer_verdict(source), lambda cs: glist([f"{c}%nat" for c in cs]))
+    equiv = glist([f"({gtext(a)}, {gtext(b)}, {gbool(v)})" for (a, b), v in rec.get("equiv", {}).items()])
     n = rec["n"] if rec["n"] is not None else -1
     wraps = glist([g_range(r) for r in wrap_ranges(source, rec)])
     texts = {t for (_, _, a, b, t) in rec["sched"]} | {source[a:b] for (_, _, a, b, _) in rec["sched"]}
     mlstr = glist([gtext(t) for t in sorted(texts) if string_literal_lines(t)])
-    return (f"(mkSubn {gtext(source)} {gtext(repl)} {gz(count)} {matches} {valid} {wraps} {mlstr} {il} {items} "
+    return (f"(mkSubn {gtext(source)} {gtext(repl)} {gz(count)} {matches} {valid} {equiv} {wraps} {mlstr} {coms} {il} "
+            f"{items} "
             f"{sched} {gtext(rec['cand'])} {gz(n)})")
 
 
@@ -1664,7 +1690,7 @@ def check(run: common.Run):
             # text clause; these cases are judged by the property oracle only
             minws_cases.append(c)
             continue
-        rows.append(g_subn_case(c, ms, rec))
+        rows.append(g_subn_case(c, ms, rec, mods))
         kept.append((c, ms, rec))
         if subn_nontrivial(ms, rec):
             distinct.add(hash(c))
@@ -1777,7 +1803,7 @@ def check(run: common.Run):
             global PACKED
             PACKED = False
             try:
-                detail = decode_texts(model_subn_detail(wd, g_subn_case(c, ms, rec)))
+                detail = decode_texts(model_subn_detail(wd, g_subn_case(c, ms, rec, mods)))
             finally:
                 PACKED = True
             run.violation({"kind": "correspondence", "kernel": "K1+K13 SubstModel (subn / find_replace / "
@@ -1881,7 +1907,7 @@ def replay(path: str) -> int:
         if kind == "correspondence" and in_domain(*c[:3]):
             global PACKED
             PACKED = False
-            print("model  :", decode_texts(model_subn_detail(wd, g_subn_case(c, all_matches(mods, c[0], c[2]), rec))))
+            print("model  :", decode_texts(model_subn_detail(wd, g_subn_case(c, all_matches(mods, c[0], c[2]), rec, mods))))
     elif kind == "correspondence":
         p = wd / "replay_expr.v"
         p.write_text(EXPR_HEADER + f"Definition c : expr_case := {data['coq_case']}.\n"
